@@ -308,6 +308,19 @@ def _design(rng):
     die = {"width": W, "height": H}
     if regions:
         die["regions"] = regions
+    # the same design in other units (added after seed C03-14: exact comparison of a fixed module's cell coverage): decimal factors make every
+    # coordinate a number that is not representable in binary
+    f = rng.choice([1, 1, 0.1, 0.7, 0.01])
+    if f != 1:
+        die = {"width": W * f, "height": H * f, **({"regions": [[v * f for v in r[:4]] + [r[4]] for r in regions]} if regions else {})}
+        for nm, m in mods.items():
+            if "rectangles" in m:
+                m["rectangles"] = [[v * f for v in r[:4]] + r[4:] for r in m["rectangles"]]
+            if "center" in m:
+                m["center"] = [v * f for v in m["center"]]
+            if "area" in m:
+                m["area"] = m["area"] * f * f
+        shapes = {nm: (k, [tuple(v * f for v in b) for b in bs]) for nm, (k, bs) in shapes.items()}
     return die, doc, shapes, rng.choice([0, 0, 3, 7])
 
 
@@ -327,6 +340,12 @@ def larger_designs_end_to_end(chunk, replay=None):
     for it in range(n_des):
         if replay:
             die_doc, doc, shapes, refine_n, zero_opts = replay["die"], replay["netlist"], {k: (v[0], [tuple(b) for b in v[1]]) for k, v in replay["shapes"].items()}, replay["refine"], [replay["zero"]]
+        elif it == 0 and chunk == 0:
+            # the recorded design of the known finding C03-occupancy-above-1-by-rounding: it is reported on every run, and stops being
+            # reported (no KNOWN-FINDING line) once the library is repaired
+            import json as _json
+            kd = _json.load(open(os.path.join(os.path.dirname(os.path.abspath(__file__)), "c03_known_design.json")))
+            die_doc, doc, shapes, refine_n, zero_opts = kd["die"], kd["netlist"], {k: (v[0], [tuple(b) for b in v[1]]) for k, v in kd["shapes"].items()}, kd["refine"], [kd["zero"]]
         else:
             die_doc, doc, shapes, refine_n = _design(rng)
             zero_opts = [False, True]
@@ -366,7 +385,8 @@ def larger_designs_end_to_end(chunk, replay=None):
                         if frac > 0 or zero:
                             e[nm] = frac
                     exp.append(e)
-            touches = {nm: any((k == "fixed") or any(_ov(c[0], b) > 0 for c in cells if not c[1]) for b in bs) for nm, (k, bs) in shapes.items()}
+            touches = {nm: any((k == "fixed") or any(_ov(c[0], b) > 1e-12 * (c[0][2] - c[0][0]) * (c[0][3] - c[0][1]) for c in cells if not c[1]) for b in bs)
+                       for nm, (k, bs) in shapes.items()}
             if not zero and not all(touches.values()):
                 continue        # the property restricts the option to designs in which every module touches some cell
             evals += 1
@@ -389,9 +409,10 @@ def larger_designs_end_to_end(chunk, replay=None):
                 if g is None or e is None:
                     bad = bad or "cell missing / fixed cell without a unique owner"
                     continue
-                if set(g) != set(e):
+                # a module whose overlap with the cell is rounding noise (decimal units) may or may not be listed
+                if (set(g) != set(e)) if zero else any((m in g) != (m in e) and max(g.get(m, 0.0), e.get(m, 0.0)) > 1e-9 for m in set(g) | set(e)):
                     bad = bad or f"modules listed in cell {box_}: {sorted(g)} instead of {sorted(e)}"
-                elif any(abs(g[m] - e[m]) > 1e-9 for m in e):
+                elif any(abs(g.get(m, 0.0) - e.get(m, 0.0)) > 1e-9 for m in set(g) | set(e)):
                     bad = bad or f"ratios in cell {box_}: {g} instead of {e}"
             for nm, (k, bs) in shapes.items():
                 want = sum(_ov(c[0], b) for c in cells for b in bs if (not c[1]) or k == "fixed") if k != "fixed" else sum((b[2] - b[0]) * (b[3] - b[1]) for b in bs)
@@ -400,7 +421,8 @@ def larger_designs_end_to_end(chunk, replay=None):
                 try:
                     have = al.area(nm)
                 except KeyError:
-                    have = None if (zero or want > 0) else 0.0        # without zero entries a module that touches nothing is simply absent
+                    noise = 1e-12 * (cells[0][0][2] - cells[0][0][0]) * (cells[0][0][3] - cells[0][0][1])     # an overlap that is rounding noise of decimal units counts as none
+                    have = None if (zero or want > noise) else want        # without zero entries a module that touches nothing is simply absent
                 if have is None or abs(have - want) > 1e-9 * max(1.0, want):
                     bad = bad or f"area allocated to {nm}: {have} instead of {want}"
             if not bad:
